@@ -175,11 +175,33 @@ def fresh_process_outcome(ctx, entry, src, template, budget, k, spend=True):
         pass
     if not spend:
         return None
+
     if spend != 'always' and ctx.fresh_spawned >= ctx.fresh_budget:
         ctx.count('fresh_process_lookups_skipped(budget of this run spent)')
         return None
     if spend != 'always':
         ctx.fresh_spawned += 1
+    # one worker computes a given outcome: the others wait for its file (briefly) instead of spawning the same process
+    try:
+        os.makedirs(d, exist_ok=True)
+        fd = os.open(path + '.claim', os.O_CREAT | os.O_EXCL | os.O_WRONLY)
+        os.close(fd)
+    except FileExistsError:
+        import time as _time
+        for _ in range(40):
+            _time.sleep(0.1)
+            try:
+                with open(path, 'rb') as f:
+                    got = pickle.load(f)
+                if got[0] == fk:
+                    ctx.fresh_memo[fk] = got[1]
+                    return got[1]
+            except Exception:
+                pass
+        ctx.count('fresh_process_outcomes_not_awaited_any_longer')
+        return None
+    except OSError:
+        pass
     req = {'sandbox': ctx.sandbox_dir, 'entry': entry, 'src': src, 'template': template, 'budget': budget, 'k': k}
     fresh = None
     try:
